@@ -84,7 +84,7 @@ impl Prop for C05Prop {
         if made_rif { tags.push("return-inside-for"); }
         if toks.iter().any(|t| t == "D") { tags.push("fn"); }
         if has_ret { tags.push("return"); }
-        Case { req: format!("c04 {} {} 6000", toks.join(";"), vars), in_domain: !made_rif, nontrivial: has_ret, tags }
+        Case { req: format!("c04 {} {} 200000", toks.join(";"), vars), in_domain: !made_rif, nontrivial: has_ret, tags }
     }
     fn run_impl(&self, req: &str, model: &str) -> String {
         run_impl_structured(req, model)
